@@ -342,6 +342,11 @@ func (fv *FV) applyBumps(e *Env, fn *types.Func, v Value) {
 				inc = ite(eq(errV.T, tNull), inc, cur)
 			}
 		}
+		if b.onlyTrue {
+			if v.K == kScalar && v.T.Sort == sBool {
+				inc = ite(v.T, inc, cur)
+			}
+		}
 		fv.storeComp(e, comp, sInt, inc, tNull)
 	}
 }
@@ -405,6 +410,12 @@ func (fv *FV) havocCell(e *Env, comp string, t types.Type, idx ...Term) {
 func (fv *FV) havocObject(e *Env, r Term, t types.Type) {
 	if isBigInt(t) {
 		fv.storeCell(e, "bigval", nil, sInt, scalar(fv.s.freshConst("hv", sInt)), r)
+		return
+	}
+	if a, ok := objArray(t); ok {
+		for i := int64(0); i < a.Len(); i++ {
+			fv.havocObject(e, fv.elemAddr(a.Elem(), r, intLit(i)), a.Elem())
+		}
 		return
 	}
 	st := structOf(t)
@@ -1063,6 +1074,12 @@ func (fv *FV) copyElemPrefix(e *Env, elem types.Type, r Term, s Value) {
 	walk = func(t types.Type, dst, src Term) {
 		if isBigInt(t) {
 			copyComp("bigval", sInt, dst, src)
+			return
+		}
+		if a, ok := objArray(t); ok {
+			for i := int64(0); i < a.Len(); i++ {
+				walk(a.Elem(), fv.elemAddr(a.Elem(), dst, intLit(i)), fv.elemAddr(a.Elem(), src, intLit(i)))
+			}
 			return
 		}
 		st := structOf(t)
